@@ -262,10 +262,22 @@ class Program:
     def impls_of(self, trait_suffix):
         return [i for i in self.impls if i.get("trait", "").endswith(trait_suffix)]
 
-    def impl_method(self, impl, name):
+    def impl_method(self, impl, name, inline=True):
+        """body of a trait method of an impl; private straight-line helpers of the same type/module are inlined (depth 2), so that
+        structural rules also see code that a refactoring moved into a helper"""
         for m in impl["methods"]:
             if m["name"] == name:
-                return self.fn(m["q"])
+                b = self.fn(m["q"])
+                if b is None or not inline:
+                    return b
+                memo = self.__dict__.setdefault("_inl", {})
+                if m["q"] not in memo:
+                    ok0 = same_impl_helper(b)
+
+                    def ok(cb):
+                        return ok0(cb) and not contains(cb["body"], lambda y: y.get("k") in ("for", "while", "loop"))
+                    memo[m["q"]] = inline_helpers(self, b, ok)
+                return memo[m["q"]]
         return None
 
     def adt_suffix(self, suffix):
